@@ -5,7 +5,7 @@ s1=open('/verif/notes/design_s1.md').read()
 s21=open('/verif/notes/design_s21.md').read()
 # amend R16 row and the "not built" notes
 s21=s21.replace("| R16 *(stretch)* | closure conversion: `iter::from_fn(move \\|\\| BODY)` ⇒ a named struct holding the captured variables (types from the side-car, checked by rustc) with `fn next(&mut self)` whose body is `BODY` with captures prefixed by `self.` | would bring `find_words_ascii_space`, `break_apart`, `split_words` into reach | only with the fidelity guard; not prototyped |",
-"| R16 | closure conversion (**built**, `//@closure <ordinal> self=a,b :: <fn header>`): the body of the n-th closure of the function (`iter::from_fn(move \\|\\| BODY)`, `.filter(\\|x\\| BODY)`, `.find(\\|x\\| BODY)`) is verified as a method of a struct holding the captured variables: same tokens, captured identifiers prefixed by `self.` (field types come from the side-car and are checked by rustc); the enclosing function becomes the struct's constructor | brings `find_words_ascii_space` (U13), `split_words` (U14), `Word::break_apart` (U15) and the three closures of `find_words_unicode_break_properties` (U20) into reach | that `from_fn`/`collect` call `next` until `None` and keep the items in order is std behaviour (A4) |\n| R18 | `for (c, &x) in S.iter().enumerate().filter(\\|(c, _)\\| c % 2 == 0) {B}` ⇒ `for h in 0..(S.len() + 1) / 2 { let c = 2 * h; let x = S[c]; B }` (`smawk_inner`, U24) | no spec for `Enumerate`/`Filter` | exact: the even indices below `len`, in order |\n| R19 | the local `macro_rules! m` of `online_column_minima` is expanded at its four uses (`assert!(c, msg…)` ⇒ `assert(c)`, to be *proved*); its definition — matched **literally** (`must=match`: any change to it leaves the unit undecided) — is dropped; the inline closure handed to `smawk_inner` is bound to a local first and gets parameter types (U24) | macros and untyped closures | expansion by hand, guarded by the literal match |\n| R17 | `RefCell<Vec<usize>>` ⇒ `Vec<usize>`, `&self` ⇒ `&mut self`, `.borrow()` / `.borrow_mut()` dropped (`LineNumbers`, U23) | no RefCell support | exact as long as no two borrows overlap: each is a temporary that dies within its own statement, none is alive across the recursive call |")
+"| R16 | closure conversion (`//@closure <ordinal> self=a,b :: <fn header>`): the body of the n-th closure of the function (`iter::from_fn(move \\|\\| BODY)`, `.filter(\\|x\\| BODY)`, `.find(\\|x\\| BODY)`) is verified as a method of a struct holding the captured variables: same tokens, captured identifiers prefixed by `self.` (field types come from the side-car and are checked by rustc); the enclosing function becomes the struct's constructor | brings `find_words_ascii_space` (U13), `split_words` (U14), `Word::break_apart` (U15) and the three closures of `find_words_unicode_break_properties` (U20) into reach | that `from_fn`/`collect` call `next` until `None` and keep the items in order is std behaviour (A4) |\n| R17 | `RefCell<Vec<usize>>` ⇒ `Vec<usize>`, `&self` ⇒ `&mut self`, `.borrow()` / `.borrow_mut()` dropped (`LineNumbers`, U23) | no RefCell support | exact as long as no two borrows overlap: each is a temporary that dies within its own statement, none is alive across the recursive call |\n| R18 | `for (c, &x) in S.iter().enumerate().filter(\\|(c, _)\\| c % 2 == 0) {B}` ⇒ `for h in 0..(S.len() + 1) / 2 { let c = 2 * h; let x = S[c]; B }` (`smawk_inner`, U24) | no spec for `Enumerate`/`Filter` | exact: the even indices below `len`, in order |\n| R19 | the local `macro_rules! m` of `online_column_minima` is expanded at its four uses (`assert!(c, msg…)` ⇒ `assert(c)`, to be *proved*); its definition — matched **literally** (`must=match`: any change to it leaves the unit undecided) — is dropped; the inline closure handed to `smawk_inner` is bound to a local first and gets parameter types (U24) | macros and untyped closures | expansion by hand, guarded by the literal match |")
 props_text={}
 for l in open('/verif/properties.jsonl'):
     d=json.loads(l); props_text[d['id']]=d['statement']
@@ -15,10 +15,9 @@ titles={'C01':'lines are in-order slices of the input','C02':'first-fit lines fi
 'C14':'fill is idempotent','C15':'unfill','C16':'refill == fill at the new width','C17':'fill_inplace','C18':'dedent','C19':'indent','C20':'wrap_columns'}
 notes={
 'C01':"Mutants rejected by U11 in scratch copies: `idx += len` without the whitespace, last whitespace not subtracted, penalty always pushed, slice from 0, indents swapped, non-empty sentinel word.",
-'C02':"The precondition `line_widths == expected_widths(options, first)` on the line breaker is taken from the statement (\"each line is measured against the indent it is actually rendered with\"); the pinned text failed exactly this obligation (F1). KF1 (below) is the one class where the letter of C02 is violated and nothing can be repaired.",
+'C02':"The precondition `line_widths == expected_widths(options, first)` on the line breaker is taken from the statement (\"each line is measured against the indent it is actually rendered with\"); the pinned text failed exactly this obligation (F1). KF1 (§5) is the one class where the letter of C02 is violated and nothing can be repaired.",
 'C03':"Rejected cost-model mutants: `gap` for `gap*gap`, last-line exemption dropped, prefix index off by one, hyphen/nline penalty dropped or moved into one branch (seed w4_C03_A), `i == j`, whitespace missing from the prefix sums.",
 'C05':"A mutant tried at authoring time (scratch copy, not among the seeds): `<` → `<=` in the shortcut's condition is not a C08/C01 violation, and U11's clauses tagged C08/C01 rightly accept it; C05's own clauses reject it.",
-'C14':"No single-call contract expresses idempotence without a full functional specification of `fill` (the composition of four word stages and a line breaker over uninterpreted floats). The deductive technique does not apply; the property is still claimed, at level `exploration`, through its bounded executable contract (the permitted bounded stand-in), never counted as proved.",
 'C16':"The equation splits into (i) how `refill` composes `unfill` and `fill` — one call, proved (U21) — and (ii) `unfill(fill(t, o1))` returns `t` and `o1`'s indents — two calls, bounded (C15's round trip). Findings KF2/KF3 live in (ii).",
 'C17':"Agreement with `wrap` would need U10's break positions and U11's slices to be related through one shared `first-fit runs` function of the same words; both units state their result in terms of the partition returned by `wrap_first_fit`, but the two-call comparison itself is bounded.",
 'C18':"Was `exploration` in the plan; U9 was built on U8's wrapper pattern.",
@@ -46,7 +45,7 @@ seeded changes and which check catches which in §11.
      sampling. This is the permitted "bounded check with a stated bound" for what neither verifier reaches, always
      labelled *bounded* and never counted as proved. BEC is also the replay harness and the counterexample finder when
      Verus rejects an obligation (Verus gives no model).
-* **Functions of `/repo` under Verus contract** (each verifies on the current tree through the extractor; each was shown
+* **Functions under contract — Verus units U…, complete Kani harnesses K1 / K3; the bounded K2 is described in §2.3** (each verifies on the current tree through the extractor; each was shown
   to reject seeded mutants in a scratch copy; none raises an alarm on 25 + 12 behaviour-preserving refactors, 16 small edits and 137 renames of locals, §8):
 
   | unit | functions of `/repo` | what is proved for all inputs | serves |
@@ -70,8 +69,8 @@ seeded changes and which check catches which in §11.
   | U18 | `refill::unfill` | indents are prefixes made of prefix characters; no inner line break; line-ending rule; width == display width of the widest line; all slices safe | C15, C04 |
   | U20 | `word_separators::find_words_unicode_break_properties` (three closures, R16) | the boundaries are exactly the kept UAX #14 opportunities (relative to the assumed shape of `unicode_linebreak::linebreaks`), one each, in order, mapped back outside escape sequences; words tile the line | C11, C13, C01 |
   | U21 | `refill::refill` | `refill(x, o2) == fill(unfill(x).text minus final ending, o2 with unfill(x)'s indents) ++ ending` | C16, C04 |
-  | U23 | `optimal_fit::LineNumbers::{new, get}` (RefCell memo, rewrite R17) | terminates, no panic, returns the number of back-pointer hops — for every table of smawk's shape | C03, C06, C04 |
   | U22 | `options.rs`: `Options::new`, `From<&Options>`, `From<usize>`, the eight setters; `LineEnding::as_str` | the by-reference conversion copies every option unchanged; documented defaults; each setter changes exactly its field; `as_str` is `"\\r\\n"` / `"\\n"` | C09, C08, C02, C04 |
+  | U23 | `optimal_fit::LineNumbers::{new, get}` (RefCell memo, rewrite R17) | terminates, no panic, returns the number of back-pointer hops — for every table of smawk's shape | C03, C06, C04 |
   | U24 | **dependency** `smawk` (version pinned by `Cargo.lock`, source read from the cargo registry): `online_column_minima`, `smawk_inner` | for every matrix callback (no monotonicity assumed): no panic (the `assert!`s of the `m!` macro, every index and subtraction), termination, the callback is called only on cells above the diagonal whose row is finished and with a well-shaped table, the result is a back-pointer table of length `size` with entry `k` pointing at a row `< k` — the contract U2 used to assume (A6) | C06, C03, C04 |
   | K1 | `core::ch_width` | `ch_width(c) <= c.len_utf8()` for all 1,112,064 scalar values (Kani, loop-free) | C10, C05, C04 |
   | K3 | `Word::width()` (`usize as f64`) and f64 `+`, `>` | `a + b < 2^53` implies `a as f64 + b as f64 == (a + b) as f64`; `a <= b` implies `!(a as f64 > b as f64)`; `0 as f64 == 0.0`; 64-bit `usize` — the A16 axioms of U17, all `usize` operands (Kani, loop-free, bit-precise) | C05 |
@@ -79,11 +78,16 @@ seeded changes and which check catches which in §11.
 * **Genuine defects found and repaired** (five `fix:` commits in `/repo`, §5): F1 (C02), F2 (C08), F5 (C20/C04) were
   convicted by Verus obligations on the pinned text *and* by BEC; F3 (C11) and F4 (C18) by BEC. Seven further findings
   (KF1–KF7) are recorded as open known findings with reasons (§5).
-* **What stays bounded.** Optimality proper in C03 (needs real arithmetic and total monotonicity), the relational
-  statements that compare runs on *different* inputs through more than the paragraph structure (C13 end to end, C14, the round
-  trip of C15/C16, agreement of `fill_inplace` with `wrap`) — C09's and C08's relational clauses are now theorems over
-  `wrap`'s functional postcondition (U11) —, the real
-  tables of `unicode-linebreak` / `unicode-width` behind the assumed shapes, and that smawk's table holds *minima* (total monotonicity).
+* **What stays bounded** (per property; details in §4):
+  - C01: pointer identity of borrowed lines; "a slice never ends in a space except after a forced break";
+  - C02: the text-level statement (display width of each rendered line, with its single-fragment exception);
+  - C03: optimality proper (needs real arithmetic and total monotonicity; that smawk's table holds *minima*);
+  - C04: "optimal-fit never reports an overflow error" (float magnitudes), the inside of `unicode-linebreak` / `unicode-width`, the
+    `Box<dyn Iterator>` dispatch of `find_words`, the thin constructors;
+  - C05: the first sentence (a paragraph whose display width fits is one line) and the optimal-fit / custom-splitter cases of the second;
+  - C13 end to end, C14, the round trips of C15 / C16, the agreement of `fill_inplace` with `wrap` (C17), C18's two corollaries:
+    relational statements that compare runs on *different* inputs through more than the paragraph structure.
+  C09's and C08's relational clauses, by contrast, are theorems over `wrap`'s functional postcondition (U11, §2.9).
 * **Robustness of the machinery** (§8, §11): 168 seeded property-breaking changes that compile and pass the upstream suite
   (5 reverted fixes + 163 from independent sub-agents in eleven waves) are all reported; 25 + 12 behaviour-preserving refactors, 16 small edits and 137 renames of locals
   raise no alarm; every unit verifies under 8 different SMT seeds; the unchanged tree passes all 20 checks in both tiers.
@@ -129,7 +133,7 @@ w("""### 2.3 Back ends
   `c: char = kani::any()`, loop-free, both feature sets, with a `should_panic` reachability twin — complete; quick tier of
   C04, C05, C10, C20 (2–10 s; it also checks that a space is one column wide, for C20). **K3** the three float facts that U17 states as axioms (A16), over symbolic `usize` operands, with the conversion taken from the real `Fragment` accessor and a `should_panic` twin that drops the 2^53 bound — complete; quick tier of C05 (≈ 80 s, almost all of it the 64-bit adder). **K2** `wrap_first_fit`, 3 fragments with quarter-integer widths < 4, two line widths < 8: U1's
   postconditions under real IEEE semantics — *bounded*, ≈ 10 min / 13 GB, thorough tier of C07. (The planned K4 for the
-  SMAWK call shape was replaced first by the BEC contract `A6.smawk.call_shape` on the real `smawk` crate, then by the proof in U24.)
+  SMAWK call shape was first covered by the BEC contract `A6.smawk.call_shape` on the real `smawk` crate and is now also proved in U24; the BEC contract still runs.)
 * **BEC** (`/verif/bec`, `textwrap = { path = "/repo" }`, built offline with `--cfg fuzzing`, release profile with
   `overflow-checks` and `debug-assertions` on, default features and `--no-default-features`): contracts are Rust
   predicates returning `Result<bool, String>` (the bool counts non-trivial cases); enumerators produce *all* inputs of a
@@ -386,7 +390,7 @@ repairs before they were committed.
   lemmas after it failed under two seeds; a U11 lemma was split in three, U24's fill loop (126 M → 6 M) and U13's collecting loop (which diverged under
   seed 5) were rebuilt around opaque predicates with step lemmas for the same reason.
 * **Seeded property-breaking changes**: §11.
-* **Fresh-copy run** (`vp check`, the sandbox's own rehearsal: restore a fresh copy offline, run `MANIFEST.setup_cmd`, then every quick command with its evidence file removed): nothing needed attention (last run after U24 and the known-finding sets were added).
+* **Fresh-copy run** (`vp check`, the sandbox's own rehearsal: restore a fresh copy offline, run `MANIFEST.setup_cmd`, then every quick command with its evidence file removed): nothing needed attention (repeated after every larger change; the last one after the final commit of this round).
 """)
 w("""## 9. Departures from the original plan
 
@@ -395,7 +399,8 @@ w("""## 9. Departures from the original plan
 * R16 (closure conversion) was a stretch goal; it is built and carries U13, U14, U15 and U20.
 * `dedent` (U9), `unfill` (U18), `refill` (U21), `fill` (in U12), `split_points` (U16), the algorithm dispatch (U17) and
   `strip_ansi_escape_sequences` (in U3) were outside the plan's reach estimate and are under contract.
-* A10 (char-boundary safety of wrap's slices; `from_utf8(..).unwrap()` in `fill_inplace`) is discharged, not assumed.
+* A10 (char-boundary safety of wrap's slices; `from_utf8(..).unwrap()` in `fill_inplace`) is discharged, not assumed; so are A2 (Kani K1) and, as far as safety goes, A7 (`LineNumbers`, U23 through R17).
+* `options.rs` (U22) and `LineNumbers` (U23) are under contract as well; neither was in the plan.
 * K2's bound is smaller than planned (quarter-integer widths, ≈ 10 min) and it runs in the thorough tier only; K4 (Kani on `smawk`) was not built (see the last bullet).
 * C18 rose from `exploration` to `other` (margin rule and output shape proved; the two corollaries bounded); C11 from `other` to `proof` (completeness of the Unicode word finder proved); C16 from `exploration` to `other`;
   C08 and C09 from `other` to `proof` (functional postcondition of `wrap`, §2.9).
@@ -413,13 +418,13 @@ w("""## 9. Departures from the original plan
 | C02 BEC | `"aa-"` is 3 columns at width 2 with the hyphen-inserting custom splitter | check wrong: C02 quantifies over the hyphen / no-hyphen splitters only | custom splitter removed from C02's grid |
 | C02 BEC | indent wider than the width + zero-width rest with a break opportunity | **code violates the letter of C02** | known finding KF1 (§5), class-tagged |
 | C15/C16 BEC | round trip fails with `break_words` on and an indent-only first line | **code violates C15/C16** | repair tried, upstream test pins the behaviour, reverted; known findings KF2/KF3 (§5) |
-| C18 BEC (new sampled pass) | `dedent` not idempotent on `"a\\r\\r\\n b"` | **code violates the corollary stated in C18** | known finding KF4 (§5), class-tagged |
+| C18 BEC (sampled long-string pass) | `dedent` not idempotent on `"a\\r\\r\\n b"` | **code violates the corollary stated in C18** | known finding KF4 (§5), class-tagged |
 | C02 BEC (broad alphabet + OSC title with a space) | a line `indent ++ "\\r\\x1b]0;a"` too wide although it holds "more than one non-zero-width character" | check wrong: it counted the characters hidden inside the (cut-off) sequence as visible; the part after the indent has one visible character, C02's exception | visible characters are counted the way C10 defines the display width, also for sequences that are cut short |
 | C20 BEC (the opener of an unterminated OSC sequence added to the column alphabet, when the width theorem's hypothesis was written down) | a row whose cell leaves a sequence open is narrower than gaps + columns + remainder | **code violates the letter of C20's second sentence** | known finding KF7 (§5), class-tagged and set-pinned; the theorem is stated for texts that do not end inside a sequence |
-| C05, C14 BEC (same alphabet, and a hyperlink with a hyphenated URL) | a fitting paragraph with such a sequence is returned as two lines; `fill` is then not idempotent | **code violates the letter of C05 / C14** | known findings KF5, KF6 (§5), one class tag |
+| C05, C14 BEC (broad alphabet with an OSC title containing a space and a hyperlink with a hyphenated URL) | a fitting paragraph with such a sequence is returned as two lines; `fill` is then not idempotent | **code violates the letter of C05 / C14** | known findings KF5, KF6 (§5), one class tag |
 | Verus → property mapping | a failed `requires` of a prelude callee was attributed to C04 only | machinery wrong | tags are read on any line of the failing span; `requires` lines carry tags |
 | probe | a `//@probe` inside `({ let …;` produced a syntax error that was reported as vacuity | machinery wrong | probe compile errors are distinguished from a verifying probe |
-| U1 / U11 | rlimit under some SMT seeds (would have been *undecided*, not an alarm) | proof brittle | opaque state predicate + step lemmas; lemma split |
+| U1 / U11 / U13 / U24 | rlimit under some SMT seeds (would have been *undecided*, not an alarm) | proof brittle | opaque state predicate + step lemmas; lemma split |
 
 No correct check was loosened: every change above either fixes the checker's own test input or narrows a check to what
 the property states.
@@ -449,7 +454,7 @@ it; `seeded/RESULTS.json` is its output and **`seeded/RESULTS.md` the full table
 failed, BEC contracts failed, undecided units, verdict). After every change to the checks the whole set is run again (last: 192 of
 192 (change, property) pairs reported).
 
-Misses on first contact and what was strengthened (never by weakening a check):
+Misses on first contact (and one relabelled seed) and what was strengthened (never by weakening a check):
 
 | wave | seed | why it was missed | strengthening |
 |---|---|---|---|
@@ -465,10 +470,10 @@ Misses on first contact and what was strengthened (never by weakening a check):
 | 6 | w6_C02_A (last piece of a split word gets `word.width - widths of the earlier pieces`) | only wrong when a split point falls inside an escape sequence; no sequence with a hyphen in the alphabets | hyperlink with a hyphenated URL added to the broad alphabet (which also surfaced known findings KF5/KF6) |
 | 6 | w6_C07_A (same patch as w6_C11_A: ASCII fast path for the width cached by `Word::from`) | not a miss: `split_words` re-measures every word, so `wrap` is unaffected and first-fit still follows the greedy rule for the widths its fragments report; the broken property is C11 | seed relabelled (C11, which reports it); a tab was added to the core wrap alphabet all the same |
 | 7 | w7_C05_A (shortcut extended to indented lines, dropping a zero-width indent) | C05 / C09 / C14 ran only the four ASCII indent pairs | the broad-alphabet and random passes of every wrap suite now run every indent pair (multi-byte, zero-width, ANSI-coloured, wider than the width) with both line endings |
+| 7 | w7_C15_A (`unfill` stops measuring lines once the common indent is empty) | round-trip paragraphs had at most three words in the quick tier, so never four lines | a pass over fixed paragraphs of 6–8 words (widest line first / last / in the middle) |
 | 11 | w11_C10_A (`find` with a stale `prev` initialised to ESC: an OSC whose payload starts with `\\` ends at once) | no `]` or BEL on their own in C10's alphabet, so `ESC ] \\` could not be formed; Verus undecided (loop turned into `find`) | `]` and BEL added to the display-width alphabet |
 | 11 | w11_C14_A (tail piece of a split word gets `word.width` minus the head widths — wrong only when a split point lies inside an escape sequence) | every failing input belongs to the input class of known finding KF6 and was suppressed with it | known findings are pinned to the recorded set of failing inputs (§5): a different set is a violation |
 | 11 | w11_C16_A (`matches!(ch, '*'..='/')` makes `,` and `.` prefix characters) | no word of the unfill / refill vocabulary starts with `.` or `,` | `.x` and `,yy` in the vocabulary, `.` and `,` in the unfill alphabet |
-| 7 | w7_C15_A (`unfill` stops measuring lines once the common indent is empty) | round-trip paragraphs had at most three words in the quick tier, so never four lines | a pass over fixed paragraphs of 6–8 words (widest line first / last / in the middle) |
 
 **Verus on its own** (`tools/seedverus.py`, `seeded/VERUS.json`: each change applied to a scratch copy, only the Verus units run):
 a Verus obligation rejects 69 of the 168 changes (1 of the 20 disguised as refactors); the others end *undecided* in Verus (a new construct without a spec, a
